@@ -162,18 +162,18 @@ package mcp
 //@   invariant isnil(self.state) || istype(self.state, State)
 //@
 //@ func stdioClientTransport.sendRequest
-//@   trusted
+//@   trusted[C16,C14]
 //@   modifies *
-//@   ensures netops == old(netops) + 1
-//@   ensures ret1 == nil ==> ret != nil
+//@   ensures[C16] netops == old(netops) + 1
+//@   ensures[C16,C14] ret1 == nil ==> ret != nil
 //@ func stdioClientTransport.sendNotification
-//@   trusted
+//@   trusted[C16,C14]
 //@   modifies *
-//@   ensures netops == old(netops) + 1
+//@   ensures[C16] netops == old(netops) + 1
 //@ func stdioClientTransport.close
-//@   trusted
+//@   trusted[C16,C14]
 //@   modifies *
-//@   ensures netops == old(netops)
+//@   ensures[C16] netops == old(netops)
 //@
 //@ func StdioClient.setState
 //@   helper
@@ -291,6 +291,12 @@ package mcp
 //@   private[C07] responses writers close, sendRequestInternal
 //@   invariant self.responses != nil
 //@   invariant[C07 endpoint-latch-closed-only-after-the-flag-is-set] self.endpointChan != nil && (!self.endpointReceived ==> !closed(self.endpointChan))
+//@ type sseClientTransport
+//@   guarded[C07] responses by responsesMu
+//@   lockinv[C07 pending-channels-are-open-while-registered] responsesMu: forall k string :: (k in self.responses) ==> !closed(self.responses[k])
+//@ type stdioClientTransport
+//@   guarded[C07] pendingRequests by pendingMutex
+//@   lockinv[C07 pending-channels-are-open-while-registered] pendingMutex: forall k int64 :: (k in self.pendingRequests) ==> !closed(self.pendingRequests[k])
 //@ type stdioClientTransport
 //@   final[C07,C20] pendingRequests, notificationHandlers
 //@   invariant self.pendingRequests != nil && self.notificationHandlers != nil
@@ -300,6 +306,8 @@ package mcp
 //@   final[C07] capabilities
 //@   invariant self.capabilities != nil
 //@
+//@ func stdioClientTransport.close
+//@   loop 1 invariant[C07] forall k int64 :: (k in t.pendingRequests) ==> !closed(t.pendingRequests[k])
 //@ func stdioClientTransport.close$1
 //@   requires[C07] done != nil && !closed(done)
 //@ func sseClientTransport.close
@@ -496,7 +504,7 @@ package mcp
 //@ func httpServerHandler.handlePostRequest
 //@   requires status(w) == 0
 //@   before call (net/http.Header).Set#1 assert[C04 session-header-only-in-stateful-mode] !h.isStateless
-//@   modifies *, status(w), hval, handled, lastres, lasterr
+//@   modifies *, status(w), hval, handled, lastres, lasterr, cancels
 //@   ensures[C03,C06] status(w) != 0
 //@ func httpServerHandler.handlePostNotification
 //@   requires status(w) == 0
@@ -912,3 +920,84 @@ package mcp
 //@ func StdioClient.ReadResource
 //@   ensures[C14,C01,C02 the-decoders-outcome-is-returned-unchanged] parses == old(parses) + 1 ==> asany(ret) == lastparsed && ret1 == lastparsederr
 //@   ensures[C14,C01 at-most-one-decoding] parses <= old(parses) + 1
+
+// ---------------------------------------------------------------------------
+// C08 — every response obtained from the request handler has its body closed on every path
+// (or is handed to a callee whose contract closes it); a call that reports no error returns a result.
+
+//@ func streamableHTTPClientTransport.send
+//@   ensures[C08 response-body-closed-on-every-path] handles == old(handles) + 1 && lastresp != nil && isnil(lasthandleerr) ==> bodyclosed(lastresp.Body)
+//@ func streamableHTTPClientTransport.sendNotification
+//@   ensures[C08 response-body-closed-on-every-path] handles == old(handles) + 1 && lastresp != nil && isnil(lasthandleerr) ==> bodyclosed(lastresp.Body)
+//@ func streamableHTTPClientTransport.connectGetSSE
+//@   ensures[C08 response-body-closed-on-every-path] handles == old(handles) + 1 && lastresp != nil && isnil(lasthandleerr) ==> bodyclosed(lastresp.Body)
+//@ func streamableHTTPClientTransport.sendResponseToServer
+//@   ensures[C08 response-body-closed-on-every-path] handles == old(handles) + 1 && lastresp != nil && isnil(lasthandleerr) ==> bodyclosed(lastresp.Body)
+//@ func streamableHTTPClientTransport.terminateSession
+//@   ensures[C08 response-body-closed-on-every-path] handles == old(handles) + 1 && lastresp != nil && isnil(lasthandleerr) ==> bodyclosed(lastresp.Body)
+//@ func sseClientTransport.sendRequestInternal
+//@   ensures[C08 response-body-closed-on-every-path] handles == old(handles) + 1 && lastresp != nil && isnil(lasthandleerr) ==> bodyclosed(lastresp.Body)
+//@ func sseClientTransport.sendNotification
+//@   ensures[C08 response-body-closed-on-every-path] handles == old(handles) + 1 && lastresp != nil && isnil(lasthandleerr) ==> bodyclosed(lastresp.Body)
+//@ func sseClientTransport.sendResponseMessage
+//@   ensures[C08 response-body-closed-on-every-path] handles == old(handles) + 1 && lastresp != nil && isnil(lasthandleerr) ==> bodyclosed(lastresp.Body)
+//@ func streamableHTTPClientTransport.send
+//@   before call Handle#1 assert[C08 exchange-is-bound-to-the-callers-context] reqctx(httpReq) == old(ctx)
+//@ func streamableHTTPClientTransport.sendNotification
+//@   before call Handle#1 assert[C08 exchange-is-bound-to-the-callers-context] reqctx(httpReq) == old(ctx)
+//@ func streamableHTTPClientTransport.connectGetSSE
+//@   before call Handle#1 assert[C08 exchange-is-bound-to-the-callers-context] reqctx(req) == old(ctx)
+//@ func streamableHTTPClientTransport.sendResponseToServer
+//@   before call Handle#1 assert[C08 exchange-is-bound-to-its-own-30s-deadline-context] reqctx(httpReq) == ctx
+//@ func streamableHTTPClientTransport.terminateSession
+//@   before call Handle#1 assert[C08 exchange-is-bound-to-the-callers-context] reqctx(httpReq) == old(ctx)
+//@ func sseClientTransport.sendRequestInternal
+//@   before call Handle#1 assert[C08 exchange-is-bound-to-the-callers-context] reqctx(httpReq) == old(ctx)
+//@ func sseClientTransport.sendNotification
+//@   before call Handle#1 assert[C08 exchange-is-bound-to-the-callers-context] reqctx(httpReq) == old(ctx)
+//@ func sseClientTransport.sendResponseMessage
+//@   before call Handle#1 assert[C08 exchange-is-bound-to-its-own-30s-deadline-context] reqctx(httpReq) == ctx
+//@ func sseClientTransport.start
+//@   before call Handle#1 assert[C08 stream-is-bound-to-the-context-close-cancels] reqctx(req) == sseCtx
+//@
+// a context.CancelFunc ends its context (assumed library behaviour); cancels counts the calls
+//@ callspec CancelFunc
+//@   counted cancels
+//@   modifies cancels
+//@
+// the stored body-close function of the SSE stream only closes that body (assumed: it is resp.Body.Close)
+//@ callspec bodyClose
+//@   pure
+//@
+//@ func sseClientTransport.close
+//@   ensures[C08 close-marks-the-transport-closed] t.closed
+//@   ensures[C08 close-cancels-the-stream-context] !old(t.closed) && old(t.sseConn.cancel) != nil ==> cancels == old(cancels) + 1
+//@   ensures[C08 close-leaves-no-pending-entry] !old(t.closed) ==> len(t.responses) == 0
+//@ func sseClientTransport.readSSE
+//@   ensures[C08 stream-end-closes-the-transport] t.closed
+//@   ensures[C08 stream-body-closed] bodyclosed(body)
+//@ func stdioClientTransport.processWatcher
+//@   ensures[C08 process-exit-cancels-the-transport-context] old(t.process) != nil ==> cancels == old(cancels) + 1 || t.closed
+//@ func stdioClientTransport.close
+//@   ensures[C08 close-marks-the-transport-closed] t.closed
+//@   ensures[C08 close-cancels-the-transport-context] !old(t.closed) ==> cancels == old(cancels) + 1
+//@
+//@ sweepscope[C08] kinds=cancel files=streamable_client.go,sse_client.go,transport_stdio.go,client.go,stdio_client.go
+
+//@ type sseClientTransport
+//@   guarded[C08] responses by responsesMu
+//@   private[C08] closed writers close
+//@   transient[C08] responses
+//@ type stdioClientTransport
+//@   guarded[C08] pendingRequests by pendingMutex
+//@   private[C08] closed writers close
+//@   transient[C08] pendingRequests
+//@
+//@ func streamableHTTPClientTransport.handleSSEResponse
+//@   ensures[C08 takes-ownership-of-the-response-and-closes-its-body] bodyclosed(httpResp.Body)
+//@   ensures[C08 no-error-means-a-result] ret1 == nil ==> ret != nil
+//@   loop 3 invariant[C08] resultReceived ==> rawResult != nil
+//@ func streamableHTTPClientTransport.send
+//@   ensures[C08 no-error-means-a-result] ret1 == nil ==> ret != nil
+//@ func sseClientTransport.sendRequestInternal
+//@   ensures[C08 no-error-means-a-result] ret1 == nil ==> ret != nil
